@@ -54,6 +54,7 @@ type Peer struct {
 	OfferSessionID []byte
 	ResumeMaster   []byte // master secret belonging to the offered ticket
 	TicketExt      bool   // client: send an (empty or filled) session_ticket extension
+	NonceOffset    uint64 // GCM: explicit record nonces are sequence number + this (a sender with its own nonce counter)
 
 	// Strict: also validate the peer's hello parameters (used when the reference plays the endpoint under comparison).
 	Strict bool
@@ -152,7 +153,7 @@ func (p *Peer) activateOut() {
 		return
 	}
 	kb := p.keys()
-	p.out = HalfState{Suite: p.Suite, On: true}
+	p.out = HalfState{Suite: p.Suite, On: true, NonceOffset: p.NonceOffset}
 	if p.isClient() {
 		p.out.Key, p.out.IV, p.out.MACKey = kb.ClientKey, kb.ClientIV, kb.ClientMAC
 	} else {
